@@ -113,7 +113,7 @@ def _parse_float_column(values: Iterable, fixer: ParseFixer = None):
 
 
 def _to_datetime(val):
-    return pd.NaT if val in ["-", "nan"] else pd.to_datetime(val)
+    return pd.NaT if val.lower() in ["-", "nan"] else pd.to_datetime(val)
 
 
 def _parse_datetime_column(values: Iterable, fixer: ParseFixer = None):
@@ -141,7 +141,7 @@ def _parse_datetime_column(values: Iterable, fixer: ParseFixer = None):
             raise ValueError(f"Illegal value in datetime column {val}")
 
         val = val.strip()
-        if len(val) > 0 and (val[0].isdigit() or val in ["-", "nan"]):
+        if len(val) > 0 and (val[0].isdigit() or val.lower() in ["-", "nan"]):
             try:
                 # Parsing the string as one of the expected things (a datetime or missing value)
                 datetime_values.append(_to_datetime(val))
